@@ -220,6 +220,17 @@ impl Scheduler for SimScheduler {
                     }
                 }
                 SchedSpec::Pct { .. } => {
+                    // a task that yields (a spin-wait) drops below everybody else, as in
+                    // shuttle's own PCT: otherwise two spinners of high priority hand the
+                    // processor to each other for ever while the task they wait for, of
+                    // lower priority, never runs -- a livelock of the scheduler's making
+                    if is_yielding {
+                        if let Some(c) = cur {
+                            self.prio_of(c);
+                            self.prio[c as usize] = self.low_next;
+                            self.low_next += 1;
+                        }
+                    }
                     if self.change_points.contains(&(choice_step + 1)) {
                         if let Some(c) = cur {
                             self.prio_of(c);
